@@ -635,7 +635,7 @@ func TestVerif_C43_ReadLoop(t *testing.T) {
 		h := sha256.New()
 
 		nframes := rapid.IntRange(3, 40).Draw(t, "nFrames")
-		bigBudget := 2
+		bigBudget := 1
 		if vkThorough() {
 			bigBudget = 6
 		}
@@ -686,7 +686,7 @@ func TestVerif_C43_ReadLoop(t *testing.T) {
 					src = &c43Source{seed: prev.raw.seed, size: prev.raw.size, zeroHead: prev.raw.zeroHead}
 				}
 				exp.wantTag, exp.want = tag, prev.data
-				exp.dedupKey = string(tag) + string(prev.data)
+				exp.dedupKey = c43Key(tag, prev.data)
 				exp.label = "repeat"
 			case kind == 2 && p.vp: // genuine votes on a compression-enabled connection
 				var v c42NVote
@@ -721,7 +721,7 @@ func TestVerif_C43_ReadLoop(t *testing.T) {
 				}
 				tag = protocol.AgreementVoteTag
 				exp.wantTag, exp.want, exp.isVote = protocol.AgreementVoteTag, mp, true
-				exp.dedupKey = string(protocol.AgreementVoteTag) + string(mp)
+				exp.dedupKey = c43Key(protocol.AgreementVoteTag, mp)
 				switch form := rapid.IntRange(0, 2).Draw(t, "voteForm"); {
 				case form == 0:
 					src.explicit = mp // uncompressed vote from a peer that supports compression: passed through
@@ -877,7 +877,7 @@ func TestVerif_C43_ReadLoop(t *testing.T) {
 				exp.want = src.body()
 			}
 			if exp.dedupKey == "pending" {
-				exp.dedupKey = string(tag) + string(exp.want)
+				exp.dedupKey = c43Key(tag, exp.want)
 			}
 			// dedup expectation from the reference model
 			allowEither := exp.either
@@ -1031,4 +1031,10 @@ func c43HasRepeatable(votes, tx, plainAV int, vpPeer bool) bool {
 		return votes+tx > 0
 	}
 	return votes+tx+plainAV > 0
+}
+
+// c43Key identifies a (tag, payload) pair for the harness's duplicate model (collision-free for all practical purposes).
+func c43Key(tag protocol.Tag, body []byte) string {
+	d := sha256.Sum256(body)
+	return string(tag) + string(d[:])
 }
